@@ -12,16 +12,17 @@ Print Assumptions C01_room_decides_history.
 
 (* (2) an accepted mutation writes only rows the history grants: needed right (own-rows for rows
    the caller creates or authored, all-rows otherwise) at the operation date, in the room entered
-   AND in the room left; authorisation rows never; whole request or nothing *)
-Theorem C01_mutation_holds : forall defs me ms,
+   AND in the room left; references created by someone else are removed only with the all-rows
+   right; authorisation rows never; whole request or nothing *)
+Theorem C01_mutation_holds : forall defs me now ms,
   forallb wf_tree ms = true ->
-  validate_all me (build_rooms defs) ms = VOk ->
-  forallb (head_entitled defs me) (flat_map written ms) = true.
+  validate_all me now (build_rooms defs) ms = VOk ->
+  forallb (head_entitled defs me now) (flat_map written ms) = true.
 Proof. exact mutation_entitled. Qed.
 Print Assumptions C01_mutation_holds.
 
-Theorem C01_mutation_all_or_nothing : forall me rooms ms,
-  validate_all me rooms ms = VOk -> Forall (fun m => validate_entity me rooms m = VOk) ms.
+Theorem C01_mutation_all_or_nothing : forall me now rooms ms,
+  validate_all me now rooms ms = VOk -> Forall (fun m => validate_entity me now rooms m = VOk) ms.
 Proof. exact mutation_all_or_nothing. Qed.
 Print Assumptions C01_mutation_all_or_nothing.
 
@@ -46,11 +47,11 @@ Print Assumptions C01_model_satisfies_oracle.
 
 Example C01_nonvacuous_ex :
   let defs := [(1%N, [EvGroup 1%N; EvUser 1%N 2%N 10 true; EvRight 1%N 0%N 10 true false])] in
-  validate_all 2%N (build_rooms defs)
+  validate_all 2%N 20 (build_rooms defs)
     [MEnt {| h_kind := KNormal; h_ent := 3%N; h_room := Some 1%N; h_date := 20; h_has_node := true;
-             h_too_big := false; h_old := None; h_edge_dels := 0%N |} []] = VOk /\
-  validate_all 2%N (build_rooms defs)
+             h_too_big := false; h_old := None; h_edge_dels := [] |} []] = VOk /\
+  validate_all 2%N 20 (build_rooms defs)
     [MEnt {| h_kind := KNormal; h_ent := 3%N; h_room := Some 1%N; h_date := 20; h_has_node := true;
-             h_too_big := false; h_old := Some {| o_room := Some 1%N; o_author := 5%N |}; h_edge_dels := 0%N |} []] = VRejected.
+             h_too_big := false; h_old := Some {| o_room := Some 1%N; o_author := 5%N |}; h_edge_dels := [] |} []] = VRejected.
 Proof. exact C01_nonvacuous. Qed.
 Print Assumptions C01_nonvacuous_ex.
